@@ -248,6 +248,18 @@ def run(ck: Checker):
     ck.ob('C10-7', f, nx[0], not bad, f'all {len(nx)} pulls end on StopIteration only' if not bad else f'L{bad[0].lineno}: `{norm_text(bad[0])}` uses an in-band default: a source element equal to it is taken for exhaustion — the fork that pulled it ends early while its peers skip that element and go on (different streams, and the survivor blocks on the full window)')
     ck.rule('C10-8', 'the pop threshold is the number of forks: tee() binds the constructor parameter that becomes `self.n_forks` to the expression that bounds the fork-creation loop (AGREE)', minimum=1)
     check_fork_count(ck, 'C10-8')
+    ck.rule('C10-11', 'each fork ends the way the source ended: the handler around the pull of the source that records "exhausted" catches StopIteration and nothing else — a source that fails with RuntimeError (or a subclass: NotImplementedError, RecursionError) must reach every fork as that failure, not as the clean end of a truncated stream')
+    fn11 = ck.repo.func(TEE, 'Fork.__next__')
+    probs11, n11 = [], 0
+    for tr in [t for t in ast.walk(fn11.node) if isinstance(t, ast.Try)]:
+        if any(isinstance(c, ast.Call) and dotted(c.func) == 'next' for b in tr.body for c in ast.walk(b)):
+            for h in tr.handlers:
+                names11 = [(dotted(e) or '?').split('.')[-1] for e in (h.type.elts if isinstance(h.type, ast.Tuple) else ([h.type] if h.type is not None else []))]
+                if 'StopIteration' in names11 or h.type is None:
+                    n11 += 1
+                    if h.type is None or any(nm != 'StopIteration' for nm in names11):
+                        probs11.append(f'L{h.lineno}: the handler that records the end of the source catches `{norm_text(h.type) if h.type is not None else "everything"}`: a failure of the source of that class is reported to every fork as clean exhaustion')
+    ck.ob('C10-11', fn11, (fn11.node.lineno, 'end-of-source handlers'), not probs11 and n11 >= 1, '; '.join(probs11) if probs11 else f'{n11} handler(s) around the pull, each for StopIteration alone')
     ck.rule('C10-10', 'a fork ends by exhaustion only from its own position: an explicit `raise StopIteration` is reached only after the fork\'s own state showed that it has delivered elements (`self._state` tested non-zero); before its first element a fork ends only through the StopIteration of the pull itself (empty source) — a shared "exhausted" flag would end a fork that has not started although the window still holds every element for it (GUARD)', minimum=1)
     fn10 = ck.repo.func(TEE, 'Fork.__next__')
     cfg10 = build_cfg(fn10, ck.repo, None)
